@@ -99,6 +99,28 @@ fn escape_sweep(o: &mut O, full: bool) {
         observe(o, p, false, "escape_edge");
         observe(o, p, true, "escape_edge");
     }
+    // escape bodies a lenient integer parser would read: one hex digit next to a sign, a blank, a radix
+    // prefix, a digit separator, a non-ASCII digit; both orders; alone, embedded, and in a later segment
+    let hexd = b"0123456789abcdefABCDEF";
+    let odd = ["+", "-", " ", "\t", "\n", "_", "x", "X", "#", ".", "\u{e9}", "\u{ff11}", "\u{661}", "\u{20ac}", "\u{1F600}"];
+    for &d in hexd.iter() {
+        for s in odd.iter() {
+            let d = d as char;
+            for p in [format!("/%{}{}", s, d), format!("/%{}{}", d, s), format!("/a%{}{}b/c", s, d), format!("/x/%{}{}", d, s)] {
+                observe(o, &p, false, "lenient_escape");
+                if full || (d as u8) % 2 == 0 {
+                    observe(o, &p, true, "lenient_escape");
+                }
+            }
+        }
+    }
+    // a malformed escape followed by a multi-byte character; three-character bodies; double escapes
+    for body in ["A\u{e9}", "\u{20ac}", "\u{1F600}", "\u{e9}", "\u{e9}\u{e9}", "4\u{20ac}", "z\u{e9}", "%\u{e9}", "041", "0041", "+41", "-41", "4 1", " 41", "41 ", "0x41", "u0041", "252e", "252E%252e", "2525", "25%32%65"] {
+        for p in [format!("/%{}", body), format!("/a%{}", body), format!("/%{}/b", body), format!("/a/%{}/..", body)] {
+            observe(o, &p, false, "odd_escape_body");
+            observe(o, &p, true, "odd_escape_body");
+        }
+    }
 }
 
 fn fixed(o: &mut O) {
@@ -109,6 +131,18 @@ fn fixed(o: &mut O) {
         "/a%2bb", "/+", "/%2B", "/a b", "/~", "/%7e", "/%7E", "/A-Z_a.z~0", "/%41%5a%61%7A%30%39%2d%2E%5f%7e",
         "/a/b?c", "/a#b", "/a/./b/../c/./", "/a/%2F/..", "/a%2Fb/../c", "/%2F", "/%2f", "/a/%2e%2E/%2e%2e/x",
         "/x/../../y", "/./../x", "/a/b/", "/a/b//", "/a/b///..", "/a/b/..//", "/hello/w+rld", "/hello/world%",
+        // segments that merely resemble dot segments (blanks, controls, other dots, longer runs, case of the escape)
+        "/a/.%20/b", "/a/%20./b", "/a/..%20/b", "/a/%20../b", "/a/.%09/b", "/a/..%00/b", "/a/%00../b", "/a/.../b", "/a/..../b", "/a/. /b", "/a/ ../b", "/a/.\u{a0}/b", "/a/\u{ff0e}/b",
+        "/a/\u{2024}\u{2024}/b", "/a/..;x/b", "/a/.;/b", "/a/..%2F/b", "/a/..%2f../b", "/a/%2E%2E%2F/b", "/a/.%2E/b", "/a/%2e./b", "/a/%2E%2e/b", "/a/%2e%2e%2e/b", "/a/%252e%252e/b", "/a/%252E/b",
+        "/a/..\\b", "/a\\..\\b", "/a/%5C../b", "/..a/..", "/a../..", "/.a/./..", "/a/./", "/a/../.", "/a/.././", "/a/b/../.", "/a/b/./..", "/./", "/../.", "/.//", "/..//", "//..", "//.",
+        "/a//../b", "/a/..//b", "/a///../../b", "/%2e/", "/%2e%2e/", "/x/%2e%2e", "/x/%2e%2e/", "/x/y/%2e%2e/%2e", "/x/y/%2e/%2e%2e",
+        // blanks, case and bytes that trimming / case folding / lossy conversion would change
+        "/ ", "/ a", "/a ", "/a /b", "/\ta", "/a\t", "/a/\n", "/%20", "/%20a", "/a%20", "/%09", "/%0A", "/%0D%0A", "/%00", "/a%00b", "/\u{a0}", "/%C2%A0", "/%A0", "/\u{3000}a", "/\u{feff}a",
+        "/A", "/a", "/%41", "/%61", "/aA/Aa", "/%C3%89", "/%C3%A9", "/\u{c9}", "/\u{e9}", "/\u{130}", "/\u{131}", "/\u{df}", "/\u{212a}", "/e\u{301}", "/\u{e9}/e\u{301}",
+        "/%FF", "/%ff", "/%C3", "/%C3%28", "/%E2%82", "/%F0%9F%98", "/%ED%A0%80", "/%C0%AF", "/%C0%AE%C0%AE/x", "/%EF%BF%BD", "/\u{fffd}",
+        // reserved and special characters: literal and escaped forms are the same decoded byte
+        "/a;b", "/a%3Bb", "/a:b", "/a%3Ab", "/a@b", "/a%40b", "/a$b", "/a%24b", "/a,b", "/a%2Cb", "/a=b", "/a%3Db", "/a&b", "/a%26b", "/a!b", "/a%21b", "/a*b", "/a%2Ab", "/a'b", "/a%27b", "/a(b)", "/a%28b%29",
+        "/a[b]", "/a%5Bb%5D", "/a{b}", "/a|b", "/a^b", "/a`b", "/a\"b", "/a<b>", "/a%25b", "/a%2525b", "/%7e%7E~", "/-._~", "/%2D%2E%5F%7E", "/%2d%2e%5f%7e",
     ] {
         observe(o, p, false, "fixed");
         observe(o, p, true, "fixed");
@@ -120,6 +154,19 @@ fn random_paths(o: &mut O, rng: &mut Rng, n: usize) {
         "a", "b", "Z", "0", "-", ".", "_", "~", "/", "/", "/", "//", "..", ".", "%2e", "%2E", "%2f", "%2F", "%41", "%7e",
         "%zz", "%", "+", " ", "!", "*", "\u{e9}", "%C3%A9",
     ];
+    // a second alphabet: dot segments in every spelling next to look-alikes, signed escapes, multi-byte text
+    let pieces2: [&str; 30] = [
+        "/", "/", "/", ".", "..", "%2e", "%2E", "%2e%2E", ".%2e", "%2E.", "...", ". ", " .", "%20", "a", "B", "%41", "%+1", "%-1", "%4\u{e9}", "\u{20ac}", "%E2%82%AC", "%e2%82%ac", ";", "%2F", "%2f", "%5C", "\\",
+        "%25", "%252e",
+    ];
+    for _ in 0..n / 3 {
+        let mut p = String::from("/");
+        for _ in 0..rng.below(14) {
+            let pc: &str = *rng.pick(&pieces2[..]);
+            p.push_str(pc);
+        }
+        observe(o, &p, rng.chance(1, 2), "random2");
+    }
     for _ in 0..n {
         let mut p = String::from("/");
         let len = rng.below(24);
